@@ -712,6 +712,14 @@ class SMCSamples(BaseSamples):
             log_evidence_error=self.log_evidence_error,
         )
 
+    def to_namespace(self, xp, dtype: Any | str | None = None):
+        out = super().to_namespace(xp, dtype=dtype)
+        # The base class only carries the per-sample fields
+        out.beta = self.beta
+        out.log_evidence = self.log_evidence
+        out.log_evidence_error = self.log_evidence_error
+        return out
+
     def to_numpy(self):
         return self.__class__(
             x=to_numpy(self.x),
